@@ -12,8 +12,23 @@ def specPt (b : List UInt8) : Option Ed.Pt := Ed.decodePt b
 def specScalar (b : List UInt8) : Option Nat := if b.length = 32 ∧ Ed.leNat b < Ed.l then some (Ed.leNat b) else none
 def showPt (o : Option Ed.Pt) : String := match o with | none => "err" | some P => Hex.encode (Ed.encodePt P)
 def showSc (o : Option Nat) : String := match o with | none => "err" | some n => Hex.encode (Ed.toBytesLE n 32)
+/-- byte-per-character reading (Latin-1), kept for `Drv/C04.lean`; the C13 text operations use `utf8Chars` -/
 def asciiChars (b : List UInt8) : List Char := b.map fun x => Char.ofNat x.toNat
-def showKey (o : Option Bytes) : String := match o with | none => "err" | some k => "ok " ++ Hex.encode k
+/-- the characters of the text handed to `from_str`: the UTF-8 decoding of the bytes (`none` = not UTF-8, so not a `&str`; the
+harness answers `err` without calling the library). The model runs on the actual characters (one `Char` per code point), the
+spec side (`specHex`) on the bytes. -/
+def utf8Chars (b : List UInt8) : Option (List Char) := (String.fromUTF8? (ByteArray.mk b.toArray)).map String.toList
+def showStr (f : List Char → Option Bytes) (b : List UInt8) : String :=
+  match utf8Chars b with | none => "err" | some cs => (match f cs with | none => "err" | some k => "ok " ++ Hex.encode k)
+/-- the three consensus entry points: `deserialize` (everything must be consumed), `deserialize_partial` (key, consumed),
+`consensus_decode` on a slice reader (key, remaining) -/
+def showWire (inp : Bytes) (o : Option (Bytes × Bytes)) : String :=
+  match o with
+  | none => "D=err P=err C=err"
+  | some (k, rest) =>
+    let h := Hex.encode k
+    let d := if rest.isEmpty then "ok," ++ h else "err"
+    s!"D={d} P=ok,{h},{inp.length - rest.length} C=ok,{h},{rest.length}"
 def showDec (inp : Bytes) (o : Option (Bytes × Bytes)) : String :=
   match o with | none => "err" | some (k, rest) => s!"ok {Hex.encode (Keys.consensusEncode k)} {inp.length - rest.length}"
 /-- spec side of the text form: an even-length string of ASCII hex digits (either case), read independently of the model -/
@@ -33,6 +48,8 @@ def specText (accept : List UInt8 → Bool) (txt : List UInt8) : String :=
   | none => "err"
 def specShow (accept : List UInt8 → Bool) (b : List UInt8) : String :=
   if accept b then Hex.encode ((Hex.encode b).toList.map fun c => UInt8.ofNat c.toNat) else "err"
+def specWire (accept : List UInt8 → Bool) (b : List UInt8) : String :=
+  if 32 ≤ b.length ∧ accept (b.take 32) then showWire b (some (b.take 32, b.drop 32)) else showWire b none
 def specCons (accept : List UInt8 → Bool) (b : List UInt8) : String :=
   if 32 ≤ b.length ∧ accept (b.take 32) then s!"ok {Hex.encode (b.take 32)} 32" else "err"
 /-- model side of the operators: `err` = an operand refused by `from_slice`, `PANIC` = the `expect` of `point()` fails -/
@@ -43,15 +60,24 @@ end C13
 open C13
 /-- C13 operations (byte strings in hex).
 `c13_sk <b>` / `c13_pk <b>` → `ok`|`err` (model: `Keys.secretAccept` / `Keys.publicAccept`; spec: `leNat < l` / RFC 8032 decoding);
-`c13_pub_of <scalar>` → point; `c13_add <P> <Q>`, `c13_sub <P> <Q>`, `c13_smul <scalar> <P>` → point; `c13_sadd <a> <b>`,
-`c13_smulmul <a> <b>` → scalar (32-byte LE); all `err` if an operand is not an accepted key. Model side = `Model/KeyOps.lean`
-(`from_slice` of the operands, permissive `point()`, extended-coordinate arithmetic, recompression; `PANIC` if `point()` fails),
-spec side = strict RFC 8032 decoding + reference group law / arithmetic modulo `l`.
-`c13_smul_u8 <a> <n>` → scalar (`PrivateKey * u8`, n < 256 in decimal). `c13_serde_double <b>` → `ok <k + k>`|`ok PANIC`|`err`:
+`c13_pub_of <scalar>` → point; `c13_add <P> <Q>`, `c13_sub <P> <Q>`, `c13_smul <scalar> <P>` → point; all `err` if an operand is
+not an accepted key. Model side (`Model/KeyOps.lean`): `from_slice` of the operands, then the permissive `point()` of the stored bytes
+(`PANIC` if it fails); `c13_add` / `c13_sub` then go through dalek's Niels-form addition / subtraction transcribed separately
+(`dalekAdd`, `dalekSub`) — a path of its own against the spec side (strict RFC 8032 decoding, `Ed.add` / `Ed.sub`); `c13_smul` /
+`c13_pub_of` and the final compression of all four call the SAME `Ed.smul` / `Ed.encodePt` of `Ref/Ed25519.lean` as the spec side, so
+for scalar multiplication the comparison is library-vs-reference only (model and spec can differ only in the operand path).
+`C13_add_bytes` … prove that the two sides agree on accepted operands; what the reference computes is proved to be the group law
+(`C13_group_law`).
+`c13_sadd <a> <b>`, `c13_smulmul <a> <b>` → scalar (32-byte LE), `c13_smul_u8 <a> <n>` → scalar (`PrivateKey * u8`, n < 256 in
+decimal): model side = dalek's `Scalar52::add` / `Scalar52::mul` transcribed on integers (conditional subtraction, two Montgomery
+reductions), spec side = `(x + y) % l` / `(x * y) % l` — two different computations (`C13_scalar_ops` proves they agree).
+`c13_serde_double <b>` → `ok <k + k>`|`ok PANIC`|`err`:
 a `PublicKey` built WITHOUT validation (serde `Deserialize`) from any 32 bytes, then `k + k`; model `Keys.keyAdd b b`, no spec side.
-`c13_pk_str <hex of the ASCII text>` / `c13_sk_str` → `ok <bytes>`|`err` (FromStr); `c13_pk_show <b>` / `c13_sk_show <b>` → hex text
+`c13_pk_str <hex of the UTF-8 text>` / `c13_sk_str` → `ok <bytes>`|`err` (FromStr; model on the decoded characters, spec on the bytes);
+`c13_pk_show <b>` / `c13_sk_show <b>` → hex text
 of the accepted key (Display) as hex-of-ASCII | `err`; `c13_pk_cons <b>` / `c13_sk_cons <b>` → `ok <re-encoded> <consumed>`|`err`
-(consensus decode of a prefix, then encode); `c13_dalek_decompress <b>` → recompressed bytes of dalek's permissive
+(consensus decode of a prefix, then encode); `c13_pk_wire <b>` / `c13_sk_wire <b>` → `D=… P=… C=…` (deserialize / deserialize_partial /
+consensus_decode on the same bytes); `c13_dalek_decompress <b>` → recompressed bytes of dalek's permissive
 `CompressedEdwardsY::decompress` | `err` (the intermediate stage of `PublicKey::from_slice`; model `Keys.decompressDalek`). The text, Display and consensus operations have an independent spec side (hex of either case / first 32 bytes, accepted iff RFC 8032 resp. `< l`); `c13_dalek_decompress` is model side only. -/
 def stepC13 : Step
   | ["c13_sk", h] => let b := Hex.decode h; some (okErr (Keys.secretAccept b), okErr (specScalar b).isSome)
@@ -85,8 +111,8 @@ def stepC13 : Step
     let b := Hex.decode h
     if b.length != 32 then some ("err", "-") else
     some ("ok " ++ (match Keys.keyAdd b b with | none => "PANIC" | some r => Hex.encode r), "-")
-  | ["c13_pk_str", h] => some (showKey (Keys.publicFromStr (asciiChars (Hex.decode h))), specText (fun b => (specPt b).isSome) (Hex.decode h))
-  | ["c13_sk_str", h] => some (showKey (Keys.secretFromStr (asciiChars (Hex.decode h))), specText (fun b => (specScalar b).isSome) (Hex.decode h))
+  | ["c13_pk_str", h] => some (showStr Keys.publicFromStr (Hex.decode h), specText (fun b => (specPt b).isSome) (Hex.decode h))
+  | ["c13_sk_str", h] => some (showStr Keys.secretFromStr (Hex.decode h), specText (fun b => (specScalar b).isSome) (Hex.decode h))
   | ["c13_pk_show", h] =>
     some ((match Keys.publicFromSlice (Hex.decode h) with | none => "err" | some k => Hex.encode ((Keys.keyToString k).map fun c => UInt8.ofNat c.toNat)),
       specShow (fun b => (specPt b).isSome) (Hex.decode h))
@@ -95,5 +121,7 @@ def stepC13 : Step
       specShow (fun b => (specScalar b).isSome) (Hex.decode h))
   | ["c13_pk_cons", h] => let b := Hex.decode h; some (showDec b (Keys.publicConsensusDecode b), specCons (fun b => (specPt b).isSome) b)
   | ["c13_sk_cons", h] => let b := Hex.decode h; some (showDec b (Keys.secretConsensusDecode b), specCons (fun b => (specScalar b).isSome) b)
+  | ["c13_pk_wire", h] => let b := Hex.decode h; some (showWire b (Keys.publicConsensusDecode b), specWire (fun b => (specPt b).isSome) b)
+  | ["c13_sk_wire", h] => let b := Hex.decode h; some (showWire b (Keys.secretConsensusDecode b), specWire (fun b => (specScalar b).isSome) b)
   | _ => none
 end Drv
